@@ -139,3 +139,15 @@ def names_in(texts) -> set[str]:
         except SyntaxError:
             pass
     return out
+
+
+def baseline_locals(key: str) -> set[str]:
+    """the names the baseline source of the function assigns (other than its parameters)"""
+    path = baseline_path(key)
+    if not os.path.exists(path):
+        return set()
+    try:
+        base_fn = ast.parse(open(path, encoding='utf-8').read()).body[0]
+    except (SyntaxError, IndexError):
+        return set()
+    return set(_assignments(base_fn)) - _params(base_fn)
